@@ -29,7 +29,14 @@ STRACE_CALLS = ("openat,open,creat,write,pwrite64,writev,pwritev,fsync,fdatasync
 
 PART_FILES = ["fv.bin", "meta.bin", "metadata.json", "primary.bin", "tag.type", "tf1.tf", "tf1.tfm", "timestamps.bin"]
 
-THEOREMS = []  # filled below
+THEOREMS = ["Banyan.C04." + t for t in [
+    "writeAtomic_atomic", "writeAtomic_durable", "recovery_spec", "recover_treeOK", "recover_treeOK0",
+    "nsok_apply", "inv_at_cut", "cut_decomposition", "crash_recovers_kill", "crash_recovers_power",
+    "crash_recovers_prefix_partial", "recoverLegacy_leaves_stale_manifest", "recover_removes_stale_manifest",
+    "recoverLegacy_leaves_tmp_manifest", "recover_removes_tmp_manifest"]] + ["Banyan.Tie.C04." + t for t in [
+    "meta_name", "primary_name", "timestamps_name", "fv_name", "tf_name", "tfm_name", "tagType_name",
+    "metadata_name", "snapshot_suffix", "tmp_suffix", "writeAtomic_order", "mustFlush_order", "mergeParts_order",
+    "mergeOut_metadata_last", "snapshot_atomic", "clean_after_flush", "clean_after_merge"]]
 
 
 # ----------------------------------------------------------------------------------------------------------
@@ -584,7 +591,10 @@ def oracle(info, raw, acked, must_cover, label):
     if missing:
         return "after recovery the directory lacks %s" % missing
     if extra:
-        return ("leftover", "leftovers after startup cleanup: %s" % extra)
+        if all(re.fullmatch(r"s\d+(\.tmp)?", x) for x in extra):
+            # class F14: manifest files (`<epoch>.snp.tmp`, or a manifest older than the loaded one) survive startup
+            return ("leftover", "initTSTable leaves manifest leftovers after startup cleanup: %s" % extra)
+        return "leftovers after startup cleanup: %s" % extra
     if info["cont"] is not None:
         c = info["cont"]
         cb = sorted(b for pid, kind, bs, bad in c["parts"] for b in bs)
@@ -610,6 +620,52 @@ def coverage_after(out_lines):
     return cov
 
 
+def part_batches(out_lines):
+    """part id -> batches, from every dump line of the history run"""
+    m = {}
+    for l in out_lines[1:]:
+        w = l.split(" ", 2)
+        if len(w) > 2:
+            for pid, kind, bs, bad in parse_dump(w[2])["parts"]:
+                if bs:
+                    m[pid] = bs
+    return m
+
+
+FILE_TAG = {"meta.bin": 1, "primary.bin": 2, "timestamps.bin": 3, "fv.bin": 4, "tf1.tf": 5, "tf1.tfm": 6}
+
+
+def real_steps_with_tokens(segs, out_lines):
+    """the recorded trace as model steps: every write gets the token content the model would give that file"""
+    pb = part_batches(out_lines)
+    steps = []
+    try:
+        for i, (mk, es) in enumerate(segs):
+            for e in es:
+                if e[0] == "other":
+                    return None
+                if e[0] != "write":
+                    steps.append((i, show_event(e)))
+                    continue
+                ap = abs_path(e[1])
+                comp = ap.split("/")
+                base = comp[-1][:-4] if comp[-1].endswith(".tmp") else comp[-1]
+                if re.fullmatch(r"s\d+", base):
+                    ids = [int(x, 16) for x in (json.loads(e[2].decode()) or [])]
+                    toks = [len(ids)] + ids
+                elif base == "tag.type":
+                    toks = [7, 1]
+                else:
+                    bs = pb.get(int(comp[0][1:]))
+                    if bs is None:
+                        return None
+                    toks = ([len(bs)] + bs) if base == "metadata.json" else ([FILE_TAG[base], len(bs)] + bs)
+                steps.append((i, "write %s %s" % (ap, ".".join(map(str, toks)))))
+    except Exception:  # noqa
+        return None
+    return steps
+
+
 def trace_tie(ctx, ops):
     """-> Hist or raises; records obligations in ctx.R"""
     R = ctx.R
@@ -630,6 +686,8 @@ def trace_tie(ctx, ops):
     h.real_events = []      # (segment index, event) in recorded order
     h.model_steps = []      # (segment index, step string with tokens)
     h.reordered = False
+    h.cov = coverage_after(out)
+    h.real_steps = real_steps_with_tokens(segs, out)   # the recorded trace in model syntax (None if not expressible)
     ino_tokens, ino_full = {}, {}
     creates_real, creates_model = [], []
     for i, ((mk, es), ms) in enumerate(zip(segs, model)):
@@ -640,16 +698,18 @@ def trace_tie(ctx, ops):
         mod, toks = model_segment_strs(ms)
         h.reordered = h.reordered or reord
         R.count("segments:" + ops[i][0])
-        if real != mod:
+        for e in es:
+            if e[0] != "other":
+                h.real_events.append((i, e))
+        if real != mod and h.why is None:
             import difflib
             d = [l for l in difflib.unified_diff(mod, real, "model", "real", lineterm="", n=0)][2:12]
             h.why = "op %d (%s): trace differs from model step list: %s" % (i, ops[i], " ".join(d))
-            return h
         for e in es:
-            if e[0] == "other":
+            if e[0] == "other" and h.why is None:
                 h.why = "op %d: unmodelled syscall: %s" % (i, e[1])
-                return h
-            h.real_events.append((i, e))
+        if h.why is not None:
+            continue
         for s in filter(None, (x.strip() for x in ms.split(";"))):
             h.model_steps.append((i, s))
         # manifest contents: the real JSON must name exactly the model's part ids
@@ -669,6 +729,8 @@ def trace_tie(ctx, ops):
                 if ids != want:
                     h.why = "op %d: manifest %s lists %s, model %s" % (i, p, ids, want)
                     return h
+    if h.why is not None:
+        return h
     # inode numbering = creation order on both sides
     ino = 0
     sim = SimFS()
@@ -693,9 +755,35 @@ def trace_tie(ctx, ops):
         h.why = "inode count differs"
         return h
     h.ino_tokens, h.ino_full = ino_tokens, ino_full
-    h.cov = coverage_after(out)
     h.ok = True
     return h
+
+
+def adopt_real_trace(h):
+    """When the trace tie broke: explore the crash states of the RECORDED trace (the model's file-system semantics
+    applied to the real system-call order) so that a broken ordering shows up as a concrete failing crash state."""
+    if not getattr(h, "real_steps", None) or not getattr(h, "real_events", None):
+        return False
+    h.model_steps = list(h.real_steps)
+    h.explicit = True
+    sim = SimFS()
+    for i, e in h.real_events:
+        sim.apply(e)
+    h.ino_full = dict(sim.data)
+    ino, cur, toks = 0, {}, {}
+    for i, st in h.model_steps:
+        w = st.split(" ")
+        if w[0] == "create":
+            ino += 1
+            cur[w[1]] = ino
+            toks[ino] = "-"
+        elif w[0] == "write":
+            k = cur[w[1]]
+            toks[k] = w[2] if toks[k] == "-" else toks[k] + "." + w[2]
+        elif w[0] == "rename":
+            cur[w[2]] = cur.pop(w[1])
+    h.ino_tokens = toks
+    return ino == len(h.ino_full)
 
 
 def crash_states_kill(h, torn=True):
@@ -725,8 +813,13 @@ def crash_states_kill(h, torn=True):
 def power_plan(ctx, h, rng, all_upto, samples):
     """for every cut of the model step list: the masks / data choices to try.  -> list of request dicts"""
     n = len(h.model_steps)
-    hist = "%d %s" % (FRESH, " ".join(h.ops))
-    pend = ctx.lean_lines(["pend %d %s" % (c, hist) for c in range(n + 1)])
+    if getattr(h, "explicit", False):
+        hist = "| " + "; ".join(st for _, st in h.model_steps)
+        cmd_pend, cmd_power = "pendx", "powerx"
+    else:
+        hist = "%d %s" % (FRESH, " ".join(h.ops))
+        cmd_pend, cmd_power = "pend", "power"
+    pend = ctx.lean_lines(["%s %d %s" % (cmd_pend, c, hist) for c in range(n + 1)])
     reqs = []
     durable_cover = []
     last_renamed = None
@@ -769,14 +862,14 @@ def power_plan(ctx, h, rng, all_upto, samples):
             for dc in dchoices:
                 reqs.append({"mode": "power", "cut": c, "seg": seg, "mask": m or "-", "dc": dc, "npend": np_,
                              "acked": acked, "cover": list(durable_cover),
-                             "line": "power %d %s %s %s" % (c, m or "-", dc, hist)})
+                             "line": "%s %d %s %s %s" % (cmd_power, c, m or "-", dc, hist)})
     return reqs
 
 
 # ----------------------------------------------------------------------------------------------------------
 # evaluating crash states
 
-KNOWN_LEFTOVER = None   # set to a finding id if leftovers are a listed known finding
+KNOWN_LEFTOVER = "F14"  # used only if KNOWN_FINDINGS.txt lists `known: property=C04 id=F14 ...`
 
 
 def eval_states(ctx, h, states, label, cont_every=7):
@@ -790,10 +883,11 @@ def eval_states(ctx, h, states, label, cont_every=7):
     for s in states:
         if s["mode"] == "power":
             o = next(pout)
-            tree_s, rec_s = o.split(" || ")
+            tree_s, rec_s, leg_s = o.split(" || ")
             ans, atoks = parse_model_tree(tree_s)
             s["entries"] = sorted((p + "/") if v == "D" else "%s=%s" % (p, atoks[v]) for p, v in ans.items())
             s["model"] = norm_lean_rec(rec_s)
+            s["legacy"] = norm_lean_rec(leg_s)
             s["ns_real"] = {real_path(p): v for p, v in ans.items()}
             s["bytes"] = {}
             for p, v in ans.items():
@@ -818,7 +912,8 @@ def eval_states(ctx, h, states, label, cont_every=7):
     kout = iter(ctx.lean_lines(klines)) if klines else iter(())
     for s in todo:
         if s["mode"] != "power":
-            s["model"] = norm_lean_rec(next(kout))
+            a, b = next(kout).split(" || ")
+            s["model"], s["legacy"] = norm_lean_rec(a), norm_lean_rec(b)
     # 3. materialise + real recovery
     glines = []
     for j, s in enumerate(todo):
@@ -851,7 +946,12 @@ def eval_states(ctx, h, states, label, cont_every=7):
                 bad += 1
                 if sum(1 for x in R.violations if x["kind"] == "oracle") < 4:
                     R.violation("oracle", msg, replay_obj(h, s))
-        if gnorm != s["model"]:
+        if gnorm == s["model"]:
+            pass
+        elif gnorm == s["legacy"]:
+            # the implementation behaves like `initTSTable` as written (finding F14 not repaired in this tree)
+            R.count("impl=legacy-model")
+        else:
             R.count("disagreements")
             ctx.disagreements.append((h, s, gnorm))
     return bad
@@ -979,7 +1079,8 @@ def eval_mutated(ctx, h, rng, n):
         R.evaluations += 1
         R.count("states:mutated")
         gnorm, info = norm_go_rec(g)
-        s["go"], s["model"] = g, norm_lean_rec(l)
+        la, lb = l.split(" || ")
+        s["go"], s["model"], s["legacy"] = g, norm_lean_rec(la), norm_lean_rec(lb)
         R.count("mutated-recovered:" + ("PANIC" if info is None else "empty" if not info["parts"] else "parts"))
         if info is not None:
             msg = None
@@ -1013,7 +1114,11 @@ def eval_mutated(ctx, h, rng, n):
                     R.count("oracle-violations")
                     if sum(1 for x in R.violations if x["kind"] == "oracle") < 4:
                         R.violation("oracle", msg, replay_obj(h, s))
-        if gnorm != s["model"]:
+        if gnorm == s["model"]:
+            pass
+        elif gnorm == s["legacy"]:
+            R.count("impl=legacy-model")
+        else:
             R.count("disagreements")
             ctx.disagreements.append((h, s, gnorm))
 
@@ -1021,7 +1126,7 @@ def eval_mutated(ctx, h, rng, n):
 # ----------------------------------------------------------------------------------------------------------
 # the check
 
-LEAN_MODULES = ["Banyan.Props.C04"]
+LEAN_MODULES = ["Banyan.Props.C04", "Banyan.Tie.C04"]
 
 TRUSTED = [
     "Lean 4.33.0 kernel",
@@ -1084,7 +1189,7 @@ def main(tier):
         vlib.static_stage(_Spec, R)
         ctx = Ctx(tier, R)
         ctx.disagreements = []
-        nrand, maxb, all_upto, samples, nmut = {"quick": (14, 4, 5, 14, 60), "thorough": (160, 8, 12, 120, 400)}[tier]
+        nrand, maxb, all_upto, samples, nmut = {"quick": (7, 4, 4, 10, 30), "thorough": (120, 8, 12, 100, 300)}[tier]
         hists = [list(x) for x in DIRECTED]
         for f in sorted(os.listdir(os.path.join(vlib.VERIF, "corpus", PROP))) if os.path.isdir(os.path.join(vlib.VERIF, "corpus", PROP)) else []:
             for l in open(os.path.join(vlib.VERIF, "corpus", PROP, f)):
@@ -1109,6 +1214,14 @@ def main(tier):
             if not h.ok:
                 with lock:
                     tie_fail.append((ops, h.why))
+                # the trace differs from the model: look for a crash state of the RECORDED trace that violates
+                # the property (model file-system semantics on the real system-call order)
+                if adopt_real_trace(h):
+                    with lock:
+                        R.count("histories-explored-on-recorded-trace")
+                    eval_states(c, h, list(crash_states_kill(h)), "xk")
+                    eval_states(c, h, power_plan(c, h, r2, all_upto, samples), "xp", cont_every=40)
+                shutil.rmtree(c.scratch, ignore_errors=True)
                 return
             with lock:
                 if h.reordered:
